@@ -113,13 +113,15 @@ Definition set_final_exception (e : Z) (s : state) : state :=
   else set_event true (set_pairs (run_ebs e (pairs s)) (set_fexc (Some e) s)).
 
 (* ---------------------------------------------------------------- sending *)
-(* _query(host): (state, request id or None) *)
+(* _query(host): (state, request id or None).  self._req_id is set right after borrow_connection, before send_msg, for every
+   caller (send_request, same-host retry); it is cleared again when send_msg raised (nothing is outstanding on that stream) *)
 Definition query (h : Z) (s : state) : state * option nat :=
   match pool_of (pools s) h with
   | PMissing | PShutdown => (s, None)
   | PNoConn => (set_cur_host (Some h) s, None)
-  | PSendFail => (set_cur_conn (Some h) (set_cur_host (Some h) s), None)
-  | POk => (set_attempts (attempts s ++ [mkAtt h true]) (set_cur_conn (Some h) (set_cur_host (Some h) s)),
+  | PSendFail => (set_cur_req None (set_cur_conn (Some h) (set_cur_host (Some h) s)), None)
+  | POk => (set_cur_req (Some (length (attempts s)))
+              (set_attempts (attempts s ++ [mkAtt h true]) (set_cur_conn (Some h) (set_cur_host (Some h) s))),
             Some (length (attempts s)))
   end.
 
@@ -156,7 +158,7 @@ Fixpoint send_loop (err : bool) (pl : list Z) (s : state) : state :=
   | h :: rest =>
     let '(s1, r) := query h s in
     match r with
-    | Some id => set_cur_req (Some id) (set_plan rest s1)
+    | Some id => set_plan rest s1
     | None => if timed_out_now s1 then on_timeout 0 (set_plan rest s1) else send_loop err rest s1
     end
   end.
